@@ -19,6 +19,7 @@ def run_property(prop, tier, seed, replay=None, root=None, write=True, out=sys.s
     except ImportError as e:
         print('ANALYSIS-ERROR property=%s no checker module: %s' % (prop, e), file=out)
         return 2
+    ctx = None
     try:
         repo = Repo(root)
         ctx = Ctx(prop, repo, tier, seed)
@@ -27,7 +28,12 @@ def run_property(prop, tier, seed, replay=None, root=None, write=True, out=sys.s
             mod.thorough(ctx)
     except Undecided as e:
         print('ANALYSIS-ERROR property=%s %s' % (prop, e), file=out)
-        return 2
+        # an analysis that could not be completed has no "holds" verdict; what it had already
+        # established as a violation (a named construct) stands
+        from .report import VIOLATION
+        if ctx is None or not any(o.verdict == VIOLATION for o in ctx.obs):
+            return 2
+        ctx.undecided('analysis-incomplete', ('bisturi', '<analysis>'), 'the analysis stopped early', str(e), 0)
     except Exception:
         print('ANALYSIS-ERROR property=%s internal error in the checker:' % prop, file=out)
         traceback.print_exc(file=out)
